@@ -52,18 +52,28 @@ def decorate(d, T, v):
         t, vals = occ[key]
         k = t['k']
         if k in CONS_KINDS and d.pct(45):
-            c = cons.draw_expr(d, k, d.pick([1, 1, 2, 3]))
-            bad = [x for x in vals if not cons.admits(c, k, x)]
-            if bad:
-                if k in ('SEQUENCEOF', 'SETOF', 'BITSTRING'):
-                    sizes = sorted(set(cons._size(k, x) for x in bad))
-                    c = {'c': 'or', 'ops': [c] + [{'c': 'size', 'lo': n, 'hi': n} for n in sizes]}
-                else:
-                    uniq = []
-                    for x in bad:
-                        if x not in uniq:
-                            uniq.append(x)
-                    c = {'c': 'or', 'ops': [c, {'c': 'single', 'vals': uniq}]}
+            def fitted():
+                c = cons.draw_expr(d, k, d.pick([1, 1, 2, 3]))
+                bad = [x for x in vals if not cons.admits(c, k, x)]
+                if bad:
+                    if k in ('SEQUENCEOF', 'SETOF', 'BITSTRING'):
+                        sizes = sorted(set(cons._size(k, x) for x in bad))
+                        c = {'c': 'or', 'ops': [c] + [{'c': 'size', 'lo': n, 'hi': n} for n in sizes]}
+                    else:
+                        uniq = []
+                        for x in bad:
+                            if x not in uniq:
+                                uniq.append(x)
+                        c = {'c': 'or', 'ops': [c, {'c': 'single', 'vals': uniq}]}
+                return c
+            c = fitted()
+            if d.pct(35):
+                # the type is derived in two steps: parent constraint, then a narrowing one - preferably one alternative of
+                # the parent's union, else a second fitted expression
+                alts = [a for a in c['ops'] if all(cons.admits(a, k, x) for x in vals)] if c['c'] == 'or' else []
+                c2 = d.pick(alts) if alts and d.pct(70) else fitted()
+                t['cons_steps'] = [c, c2]
+                c = {'c': 'and', 'ops': [c, c2]}
             t['cons'] = c
         elif k in ir.RECORD_KINDS and d.pct(35):
             rules = []
